@@ -1,42 +1,38 @@
 import Mimium.Model.Core
 import Mimium.Props.C05
+import Mimium.Proofs.CoreSoundMachine
 /-!
 # C03 — programs accepted by the type checker run without crashes or memory errors
 
-Proved here (model level):
-* `C03_output_width`: a value of first-order type `τ` flattens to exactly `wordSize τ` output words, for every
-  value and type — the arithmetic behind "dsp yields exactly the number of output words its type declares";
-* `C03_zero_has_shape`: the zero-initial `self` value has its declared shape;
+Proved here (model level), for the reference semantics `Model/Core` and the declarative type system of
+`Proofs/CoreTy.lean` (`HasType Φ Γ ρ e τ`, `WellTyped Φ Ψg τout P`; function types, closures, assignment, per-call-site
+state and tuple-valued `self` included — all 18 constructs):
+
+* `C03_sound` / `C03_sound_list` — **type soundness**: in a well-typed program, an expression of type `τ` evaluated with
+  ANY fuel in ANY typed environment / store / state either runs out of fuel or yields a value of type `τ`, a store typed by
+  an extension of the store typing and a typed state; `C03_never_type_error` spells out the consequence: the result is
+  never `.error (.type _)`, `.error (.unbound _)`, `.error (.nofn _)`;
+* `C03_init_sound`, `C03_dsp_output_width`, `C03_run_output_width` — `Machine.init` establishes and `Machine.step`
+  preserves the machine invariant (globals typed, root state typed), every successful `dsp` call outputs exactly
+  `wordSize τout` words, for any number of samples, and no sample ends in a type error;
+* `C03_sites_unique_suffices` — the premise on site identifiers used by the theorems (`Agree`: two calls sharing a site
+  identifier name the same function) follows from the decidable `SitesUnique` (site identifiers pairwise distinct),
+  which the program generator guarantees;
+* `C03_output_width`, `C03_output_width_typed`, `C03_zero_has_shape`: the arithmetic of output widths;
 * `C03_state_accesses_in_bounds`: the accesses a published layout prescribes stay inside the storage sized from that
-  layout (`total_size`), for every layout — the model-level reason the VM's unchecked state accesses are safe
-  (the run-time side is watched by the bounds-asserting hook on every generated program).
-NOT proved: soundness of the real type checker. It is observed: everything the real checker accepts among
-generated well-typed programs and their near-miss mutants must run safely on both backends; the pinned tree has
-listed findings there (K1–K6).
+  layout (`total_size`), for every layout — the model-level reason the VM's unchecked state accesses are safe.
+
+Restrictions built into `WellTyped` (each forced by a quirk of the model, see `Proofs/CoreTy.lean`): globals have
+first-order types and their initialisers call no named function (`Machine.step` truncates the store to the globals and
+`initGlobals` drops an initialiser's temporaries; a named function sees the locations of all globals, also of those not
+initialised yet); a function with a `selfShape` returns the type of that shape; lambda bodies cannot mention `self`
+(closures run against a scratch state).
+
+NOT proved: soundness of the REAL type checker / that the real checker accepts only `WellTyped` programs. That is
+observed: everything the real checker accepts among generated well-typed programs and their near-miss mutants must run
+safely on both backends; the pinned tree has listed findings there (K1–K10).
 -/
 namespace Mimium.Core
-
-/-- first-order types -/
-inductive Ty | num | tup (ts : List Ty)
-deriving Repr, Inhabited
-
-mutual
-def wordSize : Ty → Nat
-  | .num => 1
-  | .tup ts => wordSizeL ts
-def wordSizeL : List Ty → Nat
-  | [] => 0
-  | t :: ts => wordSize t + wordSizeL ts
-end
-
-mutual
-inductive HasTy : Val → Ty → Prop
-  | num (b : UInt64) : HasTy (.num b) .num
-  | tup {vs : List Val} {ts : List Ty} : HasTys vs ts → HasTy (.tup vs) (.tup ts)
-inductive HasTys : List Val → List Ty → Prop
-  | nil : HasTys [] []
-  | cons {v : Val} {t : Ty} {vs : List Val} {ts : List Ty} : HasTy v t → HasTys vs ts → HasTys (v :: vs) (t :: ts)
-end
 
 mutual
 theorem C03_output_width : ∀ (v : Val) (t : Ty), HasTy v t → (flattenVal v).length = wordSize t
@@ -49,14 +45,9 @@ theorem C03_output_width_list : ∀ (vs : List Val) (ts : List Ty), HasTys vs ts
     rw [C03_output_width _ _ h, C03_output_width_list _ _ hs]
 end
 
-mutual
-def tyOfShape : Shape → Ty
-  | .num => .num
-  | .tup ss => .tup (tyOfShapes ss)
-def tyOfShapes : List Shape → List Ty
-  | [] => []
-  | s :: ss => tyOfShape s :: tyOfShapes ss
-end
+/-- … also for values containing closures (which occupy no output word), under any store typing -/
+theorem C03_output_width_typed (Φ : Sig) (Ψ : List Ty) (v : Val) (τ : Ty) (h : VT Φ Ψ v τ) :
+    (flattenVal v).length = wordSize τ := h.flatten_length
 
 mutual
 theorem C03_zero_has_shape : ∀ (s : Shape), HasTy (zeroOf s) (tyOfShape s)
@@ -76,5 +67,193 @@ theorem C03_state_accesses_in_bounds (sk : StateTree.Sk) (hw : Layout.WF sk = tr
 
 example : wordSize (.tup [.num, .tup [.num, .num]]) = 3 ∧
     (flattenVal (.tup [.num 1, .tup [.num 2, .num 3]])).length = 3 := by decide
+
+/-! ## Type soundness of the reference semantics -/
+
+/-- **Soundness.** `P` well typed (signatures Φ, global types Ψg); `e : τ` under Γ and `self` type ρ; the environment
+binds Γ's variables to locations of their types in a store typing Ψ that extends the globals' Ψg; the store is typed by Ψ;
+`e` lies in a function body whose call sites `C` agree; the state of the running instance is typed for that body. Then,
+for every fuel, `eval` either runs out of fuel or returns `(v, σ', st')` with `v : τ` and `σ'` typed under some extension
+`Ψ'` of Ψ and `st'` typed: `Good R r` is `R a` for `r = .ok a`, `True` for `.error .fuel`, `False` for every other error. -/
+theorem C03_sound {Φ : Sig} {Ψg : List Ty} {τout : Ty} {P : Prog} (hP : WellTyped Φ Ψg τout P)
+    (fuel : Nat) (rt : Rt) (e : Expr) (Γ : Ctx) (ρ : Option Ty) (τ : Ty) (env : Env) (σ : Store) (st : SNode)
+    (Ψ : List Ty) (C : List (Nat × String))
+    (hty : HasType Φ Γ ρ e τ) (henv : EnvOK Ψ env Γ) (hσ : StoreOK Φ Ψ σ) (hg : Ψg <+: Ψ)
+    (hC : calls e ⊆ C) (hA : Agree C) (hst : RunOK P C ρ st) :
+    Good (fun r : Val × Store × SNode =>
+        ∃ Ψ', Ψ <+: Ψ' ∧ VT Φ Ψ' r.1 τ ∧ StoreOK Φ Ψ' r.2.1 ∧ RunOK P C ρ r.2.2)
+      (eval fuel P rt env e σ st) :=
+  (sound rt hP.progOK fuel).1 e Γ ρ τ env σ st Ψ C hty henv hσ hg hC hA hst
+
+/-- the same for argument lists / tuple components -/
+theorem C03_sound_list {Φ : Sig} {Ψg : List Ty} {τout : Ty} {P : Prog} (hP : WellTyped Φ Ψg τout P)
+    (fuel : Nat) (rt : Rt) (es : List Expr) (Γ : Ctx) (ρ : Option Ty) (τs : List Ty) (env : Env) (σ : Store) (st : SNode)
+    (Ψ : List Ty) (C : List (Nat × String))
+    (hty : HasTypes Φ Γ ρ es τs) (henv : EnvOK Ψ env Γ) (hσ : StoreOK Φ Ψ σ) (hg : Ψg <+: Ψ)
+    (hC : callsL es ⊆ C) (hA : Agree C) (hst : RunOK P C ρ st) :
+    Good (fun r : List Val × Store × SNode =>
+        ∃ Ψ', Ψ <+: Ψ' ∧ VTs Φ Ψ' r.1 τs ∧ StoreOK Φ Ψ' r.2.1 ∧ RunOK P C ρ r.2.2)
+      (evalList fuel P rt env es σ st) :=
+  (sound rt hP.progOK fuel).2 es Γ ρ τs env σ st Ψ C hty henv hσ hg hC hA hst
+
+/-- spelled out: a well-typed expression never ends in a type error, an unbound variable or an unknown function, and
+when it succeeds its value has the expression's type -/
+theorem C03_never_type_error {Φ : Sig} {Ψg : List Ty} {τout : Ty} {P : Prog} (hP : WellTyped Φ Ψg τout P)
+    (fuel : Nat) (rt : Rt) (e : Expr) (Γ : Ctx) (ρ : Option Ty) (τ : Ty) (env : Env) (σ : Store) (st : SNode)
+    (Ψ : List Ty) (C : List (Nat × String))
+    (hty : HasType Φ Γ ρ e τ) (henv : EnvOK Ψ env Γ) (hσ : StoreOK Φ Ψ σ) (hg : Ψg <+: Ψ)
+    (hC : calls e ⊆ C) (hA : Agree C) (hst : RunOK P C ρ st) :
+    (∀ w, eval fuel P rt env e σ st ≠ .error (.type w)) ∧
+    (∀ x, eval fuel P rt env e σ st ≠ .error (.unbound x)) ∧
+    (∀ f, eval fuel P rt env e σ st ≠ .error (.nofn f)) ∧
+    (∀ v σ' st', eval fuel P rt env e σ st = .ok (v, σ', st') →
+      ∃ Ψ', Ψ <+: Ψ' ∧ VT Φ Ψ' v τ ∧ StoreOK Φ Ψ' σ' ∧ RunOK P C ρ st') := by
+  have h := C03_sound hP fuel rt e Γ ρ τ env σ st Ψ C hty henv hσ hg hC hA hst
+  refine ⟨?_, ?_, ?_, ?_⟩
+  · intro w hw; rw [hw] at h; exact h
+  · intro x hx; rw [hx] at h; exact h
+  · intro f hf; rw [hf] at h; exact h
+  · intro v σ' st' hr; rw [hr] at h; exact h
+
+/-- the premise on site identifiers follows from the generator's guarantee (decidable): pairwise distinct site
+identifiers (`call`, `mem`, `delay`) within a body -/
+theorem C03_sites_unique_suffices (e : Expr) (h : SitesUnique e) : Agree (calls e) := h.agree
+
+/-- **Initialisation.** `Machine.init` of a well-typed program never fails with a type error (any fuel) and yields a
+machine whose globals and root state are typed. -/
+theorem C03_init_sound {Φ : Sig} {Ψg : List Ty} {τout : Ty} {P : Prog} (hP : WellTyped Φ Ψg τout P) (fuel : Nat) (sr : UInt64) :
+    Good (MachineOK Φ Ψg P) (Machine.init fuel P sr) := init_ok hP fuel sr
+
+/-- **Output width, one sample.** From any typed machine state, `dsp` either runs out of fuel or outputs exactly
+`wordSize τout` words and leaves a typed machine state — for any inputs (missing inputs read as 0). -/
+theorem C03_dsp_output_width {Φ : Sig} {Ψg : List Ty} {τout : Ty} {P : Prog} (hP : WellTyped Φ Ψg τout P)
+    (fuel : Nat) (sr : UInt64) (m : Machine) (inputs : List UInt64) (hm : MachineOK Φ Ψg P m) :
+    Good (fun r : List UInt64 × Machine => r.1.length = wordSize τout ∧ MachineOK Φ Ψg P r.2)
+      (Machine.step fuel P sr m inputs) := step_ok hP fuel sr m inputs hm
+
+/-- … in the form asked for: every successful `Machine.step` outputs exactly `wordSize τout` words -/
+theorem C03_dsp_output_width_ok {Φ : Sig} {Ψg : List Ty} {τout : Ty} {P : Prog} (hP : WellTyped Φ Ψg τout P)
+    (fuel : Nat) (sr : UInt64) (m m' : Machine) (inputs out : List UInt64) (hm : MachineOK Φ Ψg P m)
+    (hs : Machine.step fuel P sr m inputs = .ok (out, m')) : out.length = wordSize τout ∧ MachineOK Φ Ψg P m' := by
+  have h := C03_dsp_output_width hP fuel sr m inputs hm
+  rw [hs] at h; exact h
+
+/-- **Output width, any number of samples.** Starting from `Machine.init`, a run of `k` samples either runs out of fuel
+somewhere or produces `k` frames of exactly `wordSize τout` words each; it never ends in a type error. -/
+theorem C03_run_output_width {Φ : Sig} {Ψg : List Ty} {τout : Ty} {P : Prog} (hP : WellTyped Φ Ψg τout P)
+    (fuel : Nat) (sr : UInt64) (inputs : Nat → List UInt64) (k : Nat) :
+    Good (fun r : List (List UInt64) × Machine =>
+        r.1.length = k ∧ (∀ o ∈ r.1, o.length = wordSize τout) ∧ MachineOK Φ Ψg P r.2)
+      (andThen (Machine.init fuel P sr) (runSamples fuel P sr inputs k)) :=
+  Good.andThen (init_ok hP fuel sr) (fun m hm => run_ok hP fuel sr inputs k m hm)
+
+/-! ## Non-vacuity: a concrete well-typed program
+one global; a stateful function `acc` with a tuple-valued `self`, a `mem` and a `delay`, called from two sites of `dsp`;
+a closure `inc` capturing and assigning the local `c`. -/
+
+def exAcc : FnDecl :=
+  { name := "acc", params := ["x"], selfShape := some (.tup [.num, .num]),
+    body := .letTup ["a", "b"] .self
+      (.tup [.bin .add (.var "a") (.mem (.var "x") 0),
+             .bin .add (.var "b") (.bin .mul (.var "g0") (.delay 4 (.var "x") (.lit 0) 1))]) }
+
+def exDsp : FnDecl :=
+  { name := "dsp", params := ["in"], selfShape := none,
+    body := .letE "t1" (.call "acc" [.var "in"] 1)
+      (.letE "t2" (.call "acc" [.lit 0] 2)
+        (.letE "c" (.lit 0)
+          (.letE "inc" (.lam ["d"] (.assign "c" (.bin .add (.var "c") (.var "d")) (.var "c")))
+            (.letE "u" (.app (.var "inc") [.proj (.var "t1") 0])
+              (.tup [.var "u", .bin .add (.proj (.var "t2") 1) (.var "c")]))))) }
+
+def exProg : Prog := { globals := [("g0", .bin .add (.lit 1) (.lit 2))], fns := [exAcc], dsp := exDsp }
+
+def exSig : Sig := [("acc", [.num], .tup [.num, .num])]
+
+/-- syntax-directed typing derivations (the parameter types of a `lam` must be given by hand) -/
+macro "core_typing" : tactic => `(tactic| repeat (first
+  | exact HasType.lit | exact HasType.now | exact HasType.samplerate | exact HasType.self
+  | exact HasType.var rfl | exact HasTypes.nil | rfl
+  | apply HasType.un | apply HasType.bin | apply HasType.ite | apply HasType.letE | apply HasType.letTup
+  | apply HasType.tup | apply HasType.proj | apply HasType.call | apply HasType.app | apply HasType.mem
+  | apply HasType.delay | apply HasType.assign | apply HasTypes.cons))
+
+example : WellTyped exSig [.num] (.tup [.num, .num]) exProg where
+  globals := .cons (by core_typing) rfl .nil
+  fns := fns_of_all (by
+    intro s hs
+    simp only [exSig, List.mem_singleton] at hs
+    subst hs
+    refine ⟨exAcc, rfl, ?_⟩
+    exact { arity := rfl
+            body := by
+              show HasType exSig [("x", .num), ("g0", .num)] (some (.tup [.num, .num])) exAcc.body _
+              unfold exAcc; core_typing
+            selfRet := by intro sh h; cases h; rfl
+            agree := SitesUnique.agree (by decide) })
+  dsp :=
+    { arity := rfl
+      body := by
+        show HasType exSig [("in", .num), ("g0", .num)] none exDsp.body _
+        unfold exDsp
+        refine .letE (by core_typing) (.letE (by core_typing) (.letE .lit (.letE (τ₁ := .fn [.num] .num) ?_ (by core_typing))))
+        exact .lam (τs := [.num]) rfl (by core_typing)
+      selfRet := by intro sh h; cases h
+      agree := SitesUnique.agree (by decide) }
+
+/-- the example's hypotheses of `C03_sound` are satisfiable too: the empty store typing extended by the global -/
+example : EnvOK [.num] [("g0", 0)] [("g0", .num)] ∧ StoreOK exSig [.num] [.num 0] ∧ RunOK exProg [] none SNode.empty := by
+  refine ⟨?_, ⟨rfl, ?_⟩, StOK.empty _ _ _, by simp⟩
+  · have := (EnvOK.nil [] []).push "g0" .num
+    simpa using this
+  · intro l v τ hv hτ
+    cases l with
+    | zero => simp at hv hτ; subst hv; subst hτ; exact .num 0
+    | succ l => simp at hv
+
+/-! ## The restrictions of `WellTyped` are forced by the model (concrete runs, checked by evaluation)
+Each program below satisfies every clause of `WellTyped` except the named one, and ends in an error. -/
+
+/-- a function-typed global whose closure captured a temporary of its initialiser: `initGlobals` drops the temporaries,
+the captured location then holds the global itself -/
+def exBadGlobalClosure : Prog :=
+  { globals := [("g", .letE "y" (.lit 1) (.lam ["x"] (.bin .add (.var "x") (.var "y"))))], fns := [],
+    dsp := { name := "dsp", params := [], selfShape := none, body := .app (.var "g") [.lit 2] } }
+
+example : HasType [] [] none (.letE "y" (.lit 1) (.lam ["x"] (.bin .add (.var "x") (.var "y")))) (.fn [.num] .num) :=
+  .letE .lit (.lam (τs := [.num]) rfl (by core_typing))
+example : HasType [] [("g", .fn [.num] .num)] none exBadGlobalClosure.dsp.body .num := by
+  unfold exBadGlobalClosure; core_typing
+example (sr : UInt64) : ∃ m, Machine.init 10 exBadGlobalClosure sr = .ok m ∧
+    Machine.step 10 exBadGlobalClosure sr m [] = .error (.type "binary operand") := ⟨_, rfl, rfl⟩
+
+/-- a global initialiser calling a function that reads a later global -/
+def exBadGlobalCall : Prog :=
+  { globals := [("a", .call "f" [] 0), ("b", .lit 1)],
+    fns := [{ name := "f", params := [], selfShape := none, body := .var "b" }],
+    dsp := { name := "dsp", params := [], selfShape := none, body := .var "a" } }
+
+example : HasType [("f", [], .num)] [] none (.call "f" [] 0) .num := by core_typing
+example : HasType [("f", [], .num)] [("b", .num), ("a", .num)] none (.var "b") .num := by core_typing
+example (sr : UInt64) : Machine.init 10 exBadGlobalCall sr = .error (.unbound "b") := rfl
+
+/-- one site identifier shared by calls of two functions with different `self` types (`Agree` fails) -/
+def exBadSites : Prog :=
+  { globals := [],
+    fns := [{ name := "f", params := [], selfShape := some .num, body := .self },
+            { name := "g", params := [], selfShape := some (.tup [.num, .num]),
+              body := .letTup ["a", "b"] .self (.tup [.var "a", .var "b"]) }],
+    dsp := { name := "dsp", params := [], selfShape := none, body := .letE "u" (.call "f" [] 7) (.call "g" [] 7) } }
+
+example : HasType [("f", [], .num), ("g", [], .tup [.num, .num])] [] none exBadSites.dsp.body (.tup [.num, .num]) := by
+  unfold exBadSites; core_typing
+example : HasType [("f", [], .num), ("g", [], .tup [.num, .num])] [] (some (.tup [.num, .num]))
+    (.letTup ["a", "b"] .self (.tup [.var "a", .var "b"])) (.tup [.num, .num]) := by core_typing
+example : ¬ Agree (calls exBadSites.dsp.body) := by
+  intro h
+  have := h 7 "f" "g" (by simp [exBadSites, calls, callsL]) (by simp [exBadSites, calls, callsL])
+  exact absurd this (by decide)
+example (sr : UInt64) : ∃ m, Machine.init 10 exBadSites sr = .ok m ∧
+    Machine.step 10 exBadSites sr m [] = .error (.type "tuple pattern") := ⟨_, rfl, rfl⟩
 
 end Mimium.Core
